@@ -73,14 +73,14 @@ type ChanStore struct {
 	Closed *Term
 	// ghost: concatenation / count of everything sent through this channel
 	// by the function under verification (String for byte-like payloads).
-	Sent    *Term // String ghost (payload concatenation), may be nil
-	SentCnt *Term // Int ghost: number of sends
-	RecvCnt *Term // Int ghost: number of receives
-	Held    *Term // Int ghost: tokens this function holds (semaphore typestate)
-	Len     *Term          // exact fill level (meaningful for channels used sequentially, `seq:`)
-	LastCount *Term        // ghost: Count field of the last element sent (payloads with a Count field)
-	Invs    []*ChanInvDecl // channel invariants adopted on this path
-	Local   bool           // made by the function under verification on this path
+	Sent      *Term          // String ghost (payload concatenation), may be nil
+	SentCnt   *Term          // Int ghost: number of sends
+	RecvCnt   *Term          // Int ghost: number of receives
+	Held      *Term          // Int ghost: tokens this function holds (semaphore typestate)
+	Len       *Term          // exact fill level (meaningful for channels used sequentially, `seq:`)
+	LastCount *Term          // ghost: Count field of the last element sent (payloads with a Count field)
+	Invs      []*ChanInvDecl // channel invariants adopted on this path
+	Local     bool           // made by the function under verification on this path
 }
 
 type IfaceV struct {
@@ -112,16 +112,16 @@ type OpaqueV struct {
 }
 
 type Object struct {
-	id   int
-	name string
-	typ  types.Type
-	lazy bool // contents come from outside (symbolic on first access)
-	zero bool // contents start as the zero value
-	init Val  // explicit initial value
-	pre  bool // existed before the function under verification started (caller visible)
-	global bool  // a package-level variable
-	kind string // "" memory cell; "map" / "chan" / "arr": storage behind a map, channel or slice value
-	splitOf  *Term   // storage of strings.Split(splitOf, splitSep)'s result (immutable metadata)
+	id       int
+	name     string
+	typ      types.Type
+	lazy     bool   // contents come from outside (symbolic on first access)
+	zero     bool   // contents start as the zero value
+	init     Val    // explicit initial value
+	pre      bool   // existed before the function under verification started (caller visible)
+	global   bool   // a package-level variable
+	kind     string // "" memory cell; "map" / "chan" / "arr": storage behind a map, channel or slice value
+	splitOf  *Term  // storage of strings.Split(splitOf, splitSep)'s result (immutable metadata)
 	splitSep string
 	splitLen *Term
 }
@@ -155,7 +155,7 @@ func (r writeRec) key() string {
 
 type State struct {
 	heads  map[*loopInfo]*State // snapshot at the head of each loop being executed (for `prev` in step clauses)
-	binds  map[string]Val // results of calls named by bind clauses of the function under verification
+	binds  map[string]Val       // results of calls named by bind clauses of the function under verification
 	heap   map[int]Val
 	pc     []*Term
 	writes map[string]writeRec
@@ -321,25 +321,25 @@ var abstractTypes = map[string][]struct {
 	Name string
 	S    *Sort
 }{
-	"bytes.Buffer":    {{"content", SString}},
-	"strings.Builder": {{"content", SString}, {"plain", SString}},
-	"sync.Mutex":      {{"locked", SBool}},
-	"sync.RWMutex":    {{"locked", SBool}},
-	"sync.Once":       {{"done", SBool}},
-	"sync.WaitGroup":  {},
-	"sync.Pool":       {},
-	"os.File":         {{"path", SString}, {"pos", SString}},
-	"bufio.Reader":    {{"src", SString}},
-	"bufio.Writer":    {{"path", SString}, {"buffered", SString}},
-	"bufio.Scanner":   {{"path", SString}, {"consumed", SString}, {"line", SString}, {"failed", SBool}},
-	"regexp.Regexp":   {{"pattern", SString}},
-	"time.Time":       {},
-	"time.Location":   {},
-	"math/rand.Rand":  {},
-	"context.cancelCtx": {},
+	"bytes.Buffer":         {{"content", SString}},
+	"strings.Builder":      {{"content", SString}, {"plain", SString}},
+	"sync.Mutex":           {{"locked", SBool}},
+	"sync.RWMutex":         {{"locked", SBool}},
+	"sync.Once":            {{"done", SBool}},
+	"sync.WaitGroup":       {},
+	"sync.Pool":            {},
+	"os.File":              {{"path", SString}, {"pos", SString}},
+	"bufio.Reader":         {{"src", SString}},
+	"bufio.Writer":         {{"path", SString}, {"buffered", SString}},
+	"bufio.Scanner":        {{"path", SString}, {"consumed", SString}, {"line", SString}, {"failed", SBool}},
+	"regexp.Regexp":        {{"pattern", SString}},
+	"time.Time":            {},
+	"time.Location":        {},
+	"math/rand.Rand":       {},
+	"context.cancelCtx":    {},
 	"compress/gzip.Reader": {},
-	"net.TCPAddr": {},
-	"sync/atomic.Int32": {},
+	"net.TCPAddr":          {},
+	"sync/atomic.Int32":    {},
 }
 
 func qualifiedTypeName(t types.Type) string {
@@ -364,15 +364,15 @@ type Engine struct {
 	fnCodes map[*ssa.Function]int64
 	// onFreshStruct is called whenever a symbolic struct value of a named
 	// type is materialised from outside (visible-state type invariants).
-	onFreshStruct func(t types.Type, v *StructV, facts *[]*Term)
-	nextObj   int
-	objByName map[string]*Object
-	dtByType  map[string]*DTDecl
-	ifaces    map[int64]*IfaceV
-	chanInvs  map[int][]*ChanInvDecl // invariants of channels received from outside, by object id
-	semaphores map[int]bool          // channel objects used as counting semaphores
-	owner     map[int]writeRec       // storage object id -> struct location last known to hold the reference
-	unmodelled map[string]int // names of havoc'd / unmodelled constructs → count
+	onFreshStruct   func(t types.Type, v *StructV, facts *[]*Term)
+	nextObj         int
+	objByName       map[string]*Object
+	dtByType        map[string]*DTDecl
+	ifaces          map[int64]*IfaceV
+	chanInvs        map[int][]*ChanInvDecl // invariants of channels received from outside, by object id
+	semaphores      map[int]bool           // channel objects used as counting semaphores
+	owner           map[int]writeRec       // storage object id -> struct location last known to hold the reference
+	unmodelled      map[string]int         // names of havoc'd / unmodelled constructs → count
 	assumptionsUsed map[string]bool
 }
 
@@ -380,7 +380,7 @@ func newEngine() *Engine {
 	return &Engine{semaphores: map[int]bool{}, owner: map[int]writeRec{}, chanInvs: map[int][]*ChanInvDecl{}, ifaces: map[int64]*IfaceV{}, objByName: map[string]*Object{}, dtByType: map[string]*DTDecl{}, unmodelled: map[string]int{}, assumptionsUsed: map[string]bool{}}
 }
 
-func (e *Engine) note(what string) { e.unmodelled[what]++ }
+func (e *Engine) note(what string)       { e.unmodelled[what]++ }
 func (e *Engine) assumeNote(what string) { e.assumptionsUsed[what] = true }
 
 // namedObject returns the canonical object for an access-path name, so that
